@@ -292,17 +292,34 @@ def ref_verdict(wire, kind, form, alg, n_rec):
     return outs
 
 
-def run_decrypt(wire, key, algs, sender, verify_all=True, via_jwt=False):
+# how the caller states the allow-list and the recipient rule: (name, any-recipient validation opted into: True / False / None = the
+# two arguments contradict each other and either reading is admitted)
+CALLER_OPTIONS = [("registry", False), ("registry verify_all_recipients=False", True), ("algorithms=", False),
+                  ("algorithms= and registry(strict_check_header=False)", False), ("algorithms= and registry(custom header registry)", False),
+                  ("algorithms= and registry(verify_all_recipients=False)", None)]
+
+
+def run_decrypt(wire, key, algs, sender, verify_all=True, via_jwt=False, how=None):
     from joserfc import jwe, jwt
-    reg = jwe.JWERegistry(algorithms=algs, verify_all_recipients=verify_all)
+    from joserfc.registry import HeaderParameter
+    if how is None or how.startswith("registry"):
+        kw = {"registry": jwe.JWERegistry(algorithms=algs, verify_all_recipients=verify_all)}
+    elif how == "algorithms=":
+        kw = {"algorithms": algs}
+    elif "strict_check_header" in how:
+        kw = {"algorithms": algs, "registry": jwe.JWERegistry(algorithms=algs, strict_check_header=False)}
+    elif "custom header" in how:
+        kw = {"algorithms": algs, "registry": jwe.JWERegistry(header_registry={"foo": HeaderParameter("custom", "str")}, algorithms=algs)}
+    else:
+        kw = {"algorithms": algs, "registry": jwe.JWERegistry(algorithms=algs, verify_all_recipients=False)}
 
     def go():
         if via_jwt:
-            t = jwt.decode(wire, key, registry=reg)
+            t = jwt.decode(wire, key, **kw)
             return json.dumps(t.claims, separators=(",", ":"), ensure_ascii=False).encode()
         if isinstance(wire, str):
-            return jwe.decrypt_compact(wire, key, registry=reg, sender_key=sender).plaintext
-        return jwe.decrypt_json(wire, key, registry=reg, sender_key=sender).plaintext
+            return jwe.decrypt_compact(wire, key, sender_key=sender, **kw).plaintext
+        return jwe.decrypt_json(wire, key, sender_key=sender, **kw).plaintext
     return call(go)
 
 
@@ -411,60 +428,114 @@ def h_recipients(ctx):
         return JTok("general", rjwe.encrypt({"enc": enc}, pt, recs, form="general", rand=rjwe.Drbg(seed)))
     base = build(PLAINTEXT, repr((mix, enc)).encode())
     mode = ctx.choose("mode", ["tamper-subset", "foreign-cek-entry", "unresolvable-entry"])
-    verify_all = ctx.choose("verify_all_recipients", [True, False])
+    how, lenient = ctx.choose("caller_options", CALLER_OPTIONS)
+    verify_all = not lenient if lenient is not None else None      # None: contradictory arguments, only the returned content is judged
     tok = base.clone()
     privs = [A.jkey({**scen.key(MULTI_KINDS[i][1], j), "kid": f"r{j}"}, "dict") for j, i in enumerate(mix)]
     algs = sorted({MULTI_KINDS[i][0] for i in mix}) + [enc]
     if mode == "tamper-subset":
         subset = ctx.choose("tampered", [s for k in range(n + 1) for s in itertools.combinations(range(n), k)])
-        how = ctx.choose("how", ["flip-encrypted-key-bit", "truncate-encrypted-key", "swap-with-other-recipient"] if subset else ["nothing"])
+        fault_how = ctx.choose("how", ["flip-encrypted-key-bit", "truncate-encrypted-key", "swap-with-other-recipient"] if subset else ["nothing"])
         for j in subset:
             ek = tok.recipients[j]["ek"]
-            if how == "flip-encrypted-key-bit":
+            if fault_how == "flip-encrypted-key-bit":
                 tok.recipients[j]["ek"] = flip(ek, (len(ek) * 8) // 2)
-            elif how == "truncate-encrypted-key":
+            elif fault_how == "truncate-encrypted-key":
                 tok.recipients[j]["ek"] = ek[:-8]
             else:
                 tok.recipients[j]["ek"] = base.recipients[(j + 1) % n]["ek"]
         intact = n - len(subset)
         expect_ok = (verify_all and not subset) or ((not verify_all) and intact >= 1)
-        desc = f"recipients {list(subset)} tampered ({how}), verify_all={verify_all}"
+        if verify_all is None:
+            expect_ok = True if not subset else (False if intact == 0 else None)
+        desc = f"recipients {list(subset)} tampered ({fault_how}), caller options: {how}"
     elif mode == "unresolvable-entry":
         j = ctx.choose("entry", range(n))
-        how = ctx.choose("how", ["kid-renamed", "extra-entry-unknown-kid-garbage-key"])
-        if how == "kid-renamed":
+        fault_how = ctx.choose("how", ["kid-renamed", "extra-entry-unknown-kid-garbage-key"])
+        if fault_how == "kid-renamed":
             tok.recipients[j]["header"]["kid"] = "nobody"
         else:
             tok.recipients.insert(j, {"header": {"alg": MULTI_KINDS[mix[j]][0], "kid": "nobody"}, "ek": bytes(range(40))})
         expect_ok = None
-        desc = f"recipient entry {j}: {how} (a kid the key set does not hold), verify_all={verify_all}"
+        desc = f"recipient entry {j}: {fault_how} (a kid the key set does not hold), caller options: {how}"
     else:
         j = ctx.choose("entry", range(n))
         other = build(b'{"iss":"eve"}', b"other" + repr((mix, enc)).encode())
         tok.recipients[j] = copy.deepcopy(other.recipients[j])
         expect_ok = None   # must not return anything but the original; with verify_all it must fail
-        desc = f"recipient {j} replaced by the entry of another token for the same recipient (valid, different CEK), verify_all={verify_all}"
+        desc = f"recipient {j} replaced by the entry of another token for the same recipient (valid, different CEK), caller options: {how}"
     wire = tok.wire()
-    r = run_decrypt(wire, KeySet(privs), algs, A.jkey(sender, "dict", private=False) if has_1pu else None, verify_all)
+    r = run_decrypt(wire, KeySet(privs), algs, A.jkey(sender, "dict", private=False) if has_1pu else None, bool(verify_all), how=how)
     vs = []
     names = [MULTI_KINDS[i][0] for i in mix]
     if r.ok and r.value != PLAINTEXT:
         vs.append(viol("multi-recipient decryption returns a plaintext other than the encrypted one", f"{names} enc={enc}: {desc}: {r.value!r}"))
     if mode == "tamper-subset":
-        if expect_ok and not r.ok:
-            vs.append(viol(f"multi-recipient JWE rejected although the recipient rule is satisfied [verify_all={verify_all}]", f"{names} enc={enc}: {desc}: {r.exc!r}"))
-        if not expect_ok and r.ok:
-            vs.append(viol(f"multi-recipient JWE accepted although a recipient is tampered [verify_all={verify_all}]", f"{names} enc={enc}: {desc}"))
+        if expect_ok is True and not r.ok:
+            vs.append(viol(f"multi-recipient JWE rejected although the recipient rule is satisfied [{how}]", f"{names} enc={enc}: {desc}: {r.exc!r}"))
+        if expect_ok is False and r.ok:
+            vs.append(viol(f"multi-recipient JWE accepted although a recipient is tampered and the caller did not opt into any-recipient validation [{how}]", f"{names} enc={enc}: {desc}"))
     elif mode == "unresolvable-entry":
         if verify_all and r.ok:
             vs.append(viol("a recipient whose key cannot be resolved is skipped under all-recipient validation", f"{names} enc={enc}: {desc}"))
     else:
         if verify_all and r.ok:
             vs.append(viol("recipients yielding different content keys are accepted under all-recipient validation", f"{names} enc={enc}: {desc}"))
-    return Outcome(f"{mode}:{'ok' if r.ok else 'rej:' + r.etype}:va={verify_all}", vs, nontrivial=(mix, enc, desc))
+    return Outcome(f"{mode}:{'ok' if r.ok else 'rej:' + r.etype}:va={verify_all}", vs, nontrivial=(mix, enc, desc, how))
+
+
+# ------------------------------------------------------------------ E3: two decryptions at the same time
+THREAD_BASES = [("dir", "oct16", "A128GCM", "compact"), ("dir", "oct32", "A128CBC-HS256", "compact"), ("A128KW", "oct16", "A128GCM", "flattened"),
+                ("A128GCMKW", "oct16", "A128GCM", "compact"), ("ECDH-ES", "P-256", "A128GCM", "compact")]
+PT_A, PT_B = b'{"pay":"1 EUR to alice"}', b'{"pay":"99999 EUR to mallory"}'
+
+
+def _thread_menu(base):
+    alg, kind, enc, form = base
+    from joserfc import jwe
+    jwk = scen.key(kind)
+    rec = {"jwk": jwk if jwk["kty"] == "oct" else rjwk.public_of(jwk)}
+    toks = {}
+    for name, pt in (("A", PT_A), ("B", PT_B)):
+        t = JTok(form, rjwe.encrypt({"alg": alg, "enc": enc}, pt, [dict(rec)], form=form, rand=rjwe.Drbg(repr((base, name)).encode()),
+                                    param_pos="protected"))
+        toks[name] = t.wire()
+        for seg in ("tag", "ct"):
+            bad = t.clone()
+            setattr(bad, seg, flip(getattr(bad, seg), 3))
+            toks[f"{name} with a flipped {seg} bit"] = bad.wire()
+    algs = [alg, enc]
+
+    def op(tname):
+        def run(shared):
+            w = copy.deepcopy(toks[tname])
+            if isinstance(w, str):
+                return call(lambda: bytes(jwe.decrypt_compact(w, shared["key"], algorithms=algs).plaintext))
+            return call(lambda: bytes(jwe.decrypt_json(w, shared["key"], algorithms=algs).plaintext))
+        return (f"decrypt token {tname}", run)
+    return [op(n) for n in ("A", "B", "A with a flipped tag bit", "B with a flipped ct bit")]
+
+
+def h_threads(ctx):
+    from .. import conc
+    base = ctx.choose("alg/key/enc/form", THREAD_BASES)
+    alg, kind, enc, form = base
+    menu = _thread_menu(base)
+
+    def judge(name, r, shared):
+        want = PT_A if name.startswith("decrypt token A") else PT_B
+        if "flipped" in name:
+            if r.ok:
+                return (f"tampered JWE is decrypted while another decryption runs: {fam_of(alg)} {ENC[enc][0]} {form}", f"returned {r.value!r}")
+        elif not r.ok or r.value != want:
+            return (f"decryption does not return the plaintext that was encrypted while another decryption runs: {fam_of(alg)} {ENC[enc][0]} {form}",
+                    f"expected {want!r}, got {r.value!r} {r.exc!r}")
+        return None
+    return conc.pairs(ctx, menu, lambda: {"key": A.jkey(scen.key(kind), "dict")}, judge, thorough=config.thorough())
 
 
 PARTS = [
     Part("faults", h_faults, bound={"quick": 1, "thorough": 2}, split_depth=4, budget={"quick": 200, "thorough": 3000}),
     Part("recipient-sets", h_recipients, split_depth=3),
+    Part("thread-schedules", h_threads, bound={"quick": 1, "thorough": 2}, split_depth=2, budget={"quick": 200, "thorough": 3000}, engine="E3"),
 ]
